@@ -727,3 +727,28 @@ func OGPrefixDocs() []GenDoc {
 	}
 	return out
 }
+
+// DocumentMixed is Document(seed) with the script of the words forced separately
+// for the head (title, metadata) and the body: editions of one article that share
+// their metadata word for word while the text is in another script.
+func DocumentMixed(seed uint64, headLang, bodyLang int) GenDoc {
+	forceLang, forceBodyLang = headLang, bodyLang
+	defer func() { forceLang, forceBodyLang = -1, -1 }()
+	d := Document(seed)
+	d.Origin += fmt.Sprintf("/lang:%d+%d", headLang, bodyLang)
+	return d
+}
+
+// EditionFamily: the same article (same seed, same metadata in script headLang) with its
+// body in each of two scripts, with and without a <title> element of its own.
+func EditionFamily(seed uint64, headLang int, noTitle bool) []GenDoc {
+	var out []GenDoc
+	for _, bl := range []int{headLang, (headLang + 1) % 3, (headLang + 2) % 3} {
+		d := DocumentMixed(seed, headLang, bl)
+		if noTitle {
+			d = WithoutTitleElement(d)
+		}
+		out = append(out, d)
+	}
+	return out
+}
